@@ -33,7 +33,8 @@ FUNCTIONS = ['dd.bdd.BDD.apply', 'dd._utils.assert_operator_arity', 'dd.bdd.BDD.
              'dd.bdd.BDD.dump', 'dd.bdd.BDD.load', 'dd.bdd.reorder', 'dd.bdd._sort_to_order',
              'dd.bdd._try_to_reorder', 'dd.bdd._ReorderingContext.__exit__',
              'dd.autoref.BDD.apply', 'dd.autoref.BDD.ite', 'dd.autoref.BDD.__contains__',
-             'dd.autoref.Function._apply', 'dd.autoref.BDD.add_expr']
+             'dd.autoref.Function._apply', 'dd.autoref.BDD.add_expr', 'dd.bdd.BDD.add_var',
+             'dd.bdd.BDD._check_var', 'dd.bdd.BDD._next_free_level', 'dd.autoref.BDD.add_var']
 STUBS = ['ite / find_or_add -> contracts that may request reordering (see dynreorder)']
 
 KINDS = ['apply_unknown_op', 'apply_arity', 'apply_foreign', 'let_undeclared_bool', 'let_undeclared_fn',
@@ -43,7 +44,8 @@ KINDS = ['apply_unknown_op', 'apply_arity', 'apply_foreign', 'let_undeclared_boo
          'expr_dangling_node', 'dump_unknown_type', 'load_unknown_type', 'reorder_bad_order',
          'autoref_foreign_function', 'configure_unknown', 'load_conflicting_levels',
          'autoref_load_conflicting_levels', 'autoref_expr_undeclared', 'autoref_expr_syntax',
-         'autoref_expr_dangling_node']
+         'autoref_expr_dangling_node', 'add_var_occupied_level', 'add_var_other_level',
+         'autoref_add_var_occupied_level']
 AUTOREF_EXPR = {'autoref_expr_undeclared': '(a \\/ ~ b) /\\ zz', 'autoref_expr_syntax': '(a => b) /\\ /\\ b',
                 'autoref_expr_dangling_node': '(a \\/ b) /\\ @%d'}
 
@@ -160,6 +162,12 @@ class Harness:
                 abdd = make_autoref(A, bdd)
                 e = AUTOREF_EXPR[kind]
                 out = abdd.add_expr(e % absent if '%d' in e else e)
+            elif kind == 'add_var_occupied_level':
+                out = bdd.add_var('zz', 0)
+            elif kind == 'add_var_other_level':
+                out = bdd.add_var(names[0], L - 1)
+            elif kind == 'autoref_add_var_occupied_level':
+                out = make_autoref(A, bdd).add_var('zz', L - 1)
             elif kind == 'configure_unknown':
                 out = bdd.configure(nosuch=1)
             elif kind in ('load_conflicting_levels', 'autoref_load_conflicting_levels'):
@@ -309,6 +317,12 @@ def _do(kind, bdd, B, A, names, u, v, absent, L):
         abdd = make_autoref(A, bdd)
         e = AUTOREF_EXPR[kind]
         return abdd.add_expr(e % absent if '%d' in e else e)
+    if kind == 'add_var_occupied_level':
+        return bdd.add_var('zz', 0)
+    if kind == 'add_var_other_level':
+        return bdd.add_var(names[0], L - 1)
+    if kind == 'autoref_add_var_occupied_level':
+        return make_autoref(A, bdd).add_var('zz', L - 1)
     if kind == 'configure_unknown':
         return bdd.configure(nosuch=1)
     if kind in ('load_conflicting_levels', 'autoref_load_conflicting_levels'):
